@@ -332,7 +332,7 @@ def e2e_sanity(ctx):
     # configuration that changes what porcelain commands print (status.showUntrackedFiles=no …), not what the repository holds
     cases += [dict(id=5000 + m, mask=m, bare=False, quietstatus=True) for m in range(0, 512, step_bare)]
     # a stash whose reflog was expired (refs/stash still holds the work; `git stash list` is empty), with and without a gc
-    cases += [dict(id=6000 + m, mask=m, bare=False, stash_expired=1 + m % 2) for m in range(512) if m >> e2e.VIOLATIONS.index('stash') & 1]      # all 256 subsets that contain the stash
+    cases += [dict(id=6000 + m, mask=m, bare=False, stash_expired=2) for m in range(512) if m >> e2e.VIOLATIONS.index('stash') & 1]      # all 256 subsets that contain the stash; with the gc (without it the stash's loose objects alone get the repository refused)
     # --sensitive on a clone with an origin: a refusal must come before the mirror fetch touches any ref
     cases += [dict(id=7000 + m, mask=m, bare=False, sensitive=True) for m in range(0, 512, step_bare)]
     results = e2e.run_pool(e2e.sanity_case, cases)
